@@ -3,6 +3,7 @@
 from __future__ import annotations
 
 import logging
+import math
 import os
 import warnings
 from typing import Any
@@ -312,6 +313,48 @@ class GPTNeoXKFACPreconditioner(BaseKFACPreconditioner):
             tdc=self.tdc,
             loglevel=loglevel,
         )
+
+    def _compute_grad_scale(self) -> float:
+        """Computes scale factor for preconditioned gradients.
+
+        Each rank only holds its model parallel shards of the layers of its
+        pipeline stage so the local sums are summed over all ranks to get the
+        same scale on every rank as without model and pipeline parallelism.
+
+        Returns:
+            sum_{layers} (sum_{gradients} precon_grad * grad * lr^2)
+        """
+        vg_sum = 0.0
+        mp_size = get_world_size(self.model_parallel_group)
+        device = None
+        for _, layer in reversed(list(self._layers.values())):
+            if layer.grad is None:
+                raise AssertionError(
+                    'layer gradient has not been preconditioned',
+                )
+            w = layer.module.get_weight_grad()
+            device = w.device
+            if layer.module.has_bias():
+                b = layer.module.get_bias_grad()
+                v1 = layer.grad[:, :-1].view(w.size())
+                v2 = layer.grad[:, -1:].view(b.size())
+            else:
+                v1 = layer.grad.view(w.size())
+            vg_sum += (v1 * w * self.lr**2).sum().item()
+            if layer.module.has_bias():
+                bias_sum = (v2 * b * self.lr**2).sum().item()
+                if cast(GPTNeoXKFACEigenLayer, layer).parallelism == 'input':
+                    # The bias is replicated on all model parallel ranks
+                    bias_sum /= mp_size
+                vg_sum += bias_sum
+        if torch.distributed.is_initialized() and get_world_size() > 1:
+            # Every data parallel replica contributes the same sum
+            total = torch.tensor(vg_sum, dtype=torch.float64, device=device)
+            torch.distributed.all_reduce(total)
+            vg_sum = total.item() / get_world_size(self.data_parallel_group)
+        if vg_sum == 0.0:
+            return 1.0
+        return min(1.0, math.sqrt(self.kl_clip / abs(vg_sum)))
 
     def load_state_dict(
         self,
